@@ -6,6 +6,7 @@ package main
 import (
 	"encoding/json"
 	"fmt"
+	"runtime/debug"
 	"sort"
 	"strings"
 	"time"
@@ -362,6 +363,9 @@ func c07Worker(tb []byte, progress func()) []byte {
 		progress()
 		r := runOnce(w, order, devs, false)
 		res.Runs++
+		if res.Runs%100 == 0 {
+			debug.FreeOSMemory()
+		}
 		if len(devs) > 0 {
 			res.Deviating++
 			if res.Sample == "" {
